@@ -102,6 +102,10 @@ type machine struct {
 	now       *Term            // last clock instant
 	entered   map[*ssa.Function]int
 	notes     []string
+	model     map[string]uint64 // an assignment satisfying pc, or nil
+	memo      map[*Term]uint64
+	hiddenVars []*Term
+	inDecide   bool
 }
 
 type violationRec struct {
@@ -149,6 +153,11 @@ func (m *machine) addPC(t *Term) {
 		return
 	}
 	m.pc = append(m.pc, t)
+	if m.model != nil && !m.inDecide {
+		if m.evalModel(t) == 0 {
+			m.model = nil
+		}
+	}
 }
 
 // decide concretises a boolean term, forking if both outcomes are feasible.
@@ -179,29 +188,50 @@ func (m *machine) decide(cond *Term) bool {
 		m.eng.siteStats["decide "+m.where()+" :: "+truncStr(cond.String(), 120)]++
 		m.eng.siteMu.Unlock()
 	}
-	rT := m.solver.Check(m.pc, cond)
 	var take bool
-	switch rT {
-	case Unsat:
-		take = false
-	default:
-		if rT == Unknown {
+	if m.model != nil {
+		// the cached model tells which side is certainly feasible
+		take = m.evalModel(cond) != 0
+		other := cond
+		if take {
+			other = m.ctx.Not(cond)
+		}
+		r := m.chk( other)
+		if r == Unknown {
 			m.unknowns++
 			m.note("unknown on feasibility query at " + m.where())
 		}
-		rF := m.solver.Check(m.pc, m.ctx.Not(cond))
-		if rF == Unknown {
-			m.unknowns++
-			m.note("unknown on feasibility query at " + m.where())
-		}
-		if rF != Unsat {
-			// fork: alternative takes the false branch
+		if r != Unsat {
 			alt := make([]decision, len(m.trace), len(m.trace)+1)
 			copy(alt, m.trace)
-			alt = append(alt, decision{Kind: 'b', B: false})
+			alt = append(alt, decision{Kind: 'b', B: !take})
 			m.w.push(alt)
 		}
-		take = true
+	} else {
+		rT := m.chk( cond)
+		switch rT {
+		case Unsat:
+			take = false
+		default:
+			if rT == Unknown {
+				m.unknowns++
+				m.note("unknown on feasibility query at " + m.where())
+			} else {
+				m.fetchModel()
+			}
+			rF := m.chk( m.ctx.Not(cond))
+			if rF == Unknown {
+				m.unknowns++
+				m.note("unknown on feasibility query at " + m.where())
+			}
+			if rF != Unsat {
+				alt := make([]decision, len(m.trace), len(m.trace)+1)
+				copy(alt, m.trace)
+				alt = append(alt, decision{Kind: 'b', B: false})
+				m.w.push(alt)
+			}
+			take = true
+		}
 	}
 	m.trace = append(m.trace, decision{Kind: 'b', B: take})
 	if take {
@@ -210,6 +240,31 @@ func (m *machine) decide(cond *Term) bool {
 		m.addPC(m.ctx.Not(cond))
 	}
 	return take
+}
+
+// fetchModel caches the solver's current model (must follow a Sat answer).
+func (m *machine) fetchModel() {
+	var ts []*Term
+	for _, n := range m.nondets {
+		if !n.Term.IsConst() {
+			ts = append(ts, n.Term)
+		}
+	}
+	ts = append(ts, m.hiddenVars...)
+	vals, err := m.solver.Values(ts)
+	if err != nil {
+		m.model = nil
+		return
+	}
+	m.model = make(map[string]uint64, len(ts))
+	for _, t := range ts {
+		m.model[t.name] = vals[t]
+	}
+	m.memo = make(map[*Term]uint64)
+}
+
+func (m *machine) evalModel(t *Term) uint64 {
+	return m.ctx.eval(t, m.model, m.memo)
 }
 
 // concretize picks a concrete value for t, forking over all feasible values
@@ -237,23 +292,28 @@ func (m *machine) concretize(t *Term, what string) uint64 {
 	if len(excl) > m.eng.maxValues {
 		m.end("limit", fmt.Sprintf("more than %d values for %s at %s", m.eng.maxValues, what, m.where()))
 	}
-	cons := m.ctx.True
-	for _, e := range excl {
-		cons = m.ctx.And(cons, m.ctx.Not(m.ctx.Eq(t, m.ctx.BV(e, t.Width()))))
+	var v uint64
+	if m.model != nil && len(excl) == 0 {
+		v = m.evalModel(t)
+	} else {
+		cons := m.ctx.True
+		for _, e := range excl {
+			cons = m.ctx.And(cons, m.ctx.Not(m.ctx.Eq(t, m.ctx.BV(e, t.Width()))))
+		}
+		r := m.chk( cons)
+		if r == Unsat {
+			m.end("exhausted", "")
+		}
+		if r == Unknown {
+			m.unknowns++
+			m.end("unknown", "concretize "+what+" at "+m.where())
+		}
+		m.fetchModel()
+		if m.model == nil {
+			m.end("unknown", "get-value failed")
+		}
+		v = m.evalModel(t)
 	}
-	r := m.solver.Check(m.pc, cons)
-	if r == Unsat {
-		m.end("exhausted", "")
-	}
-	if r == Unknown {
-		m.unknowns++
-		m.end("unknown", "concretize "+what+" at "+m.where())
-	}
-	vals, err := m.solver.Values([]*Term{t})
-	if err != nil {
-		m.end("unknown", "get-value failed: "+err.Error())
-	}
-	v := vals[t]
 	alt := make([]decision, len(m.trace), len(m.trace)+1)
 	copy(alt, m.trace)
 	ex2 := make([]uint64, len(excl), len(excl)+1)
@@ -608,9 +668,9 @@ func (fr *frame) visit(instr ssa.Instruction) cont {
 	case *ssa.Field:
 		fr.env[instr] = fr.get(instr.X).(structure)[instr.Field]
 	case *ssa.IndexAddr:
-		fr.env[instr] = m.indexAddr(fr.get(instr.X), fr.get(instr.Index))
+		fr.env[instr] = m.indexAddr(fr.get(instr.X), fr.get(instr.Index), instr.Index.Type())
 	case *ssa.Index:
-		fr.env[instr] = m.index(fr.get(instr.X), fr.get(instr.Index))
+		fr.env[instr] = m.index(fr.get(instr.X), fr.get(instr.Index), instr.Index.Type())
 	case *ssa.Lookup:
 		fr.env[instr] = m.lookup(instr, fr.get(instr.X), fr.get(instr.Index))
 	case *ssa.MapUpdate:
@@ -847,4 +907,14 @@ func truncStr(s string, n int) string {
 		return s[:n] + "…"
 	}
 	return s
+}
+
+func (m *machine) chk(extra *Term) SatResult {
+	if slowLog != nil {
+		m.solver.where = m.where()
+		if extra != nil {
+			m.solver.where += " :: " + truncStr(extra.String(), 300)
+		}
+	}
+	return m.solver.Check(m.pc, extra)
 }
